@@ -8,7 +8,7 @@ hook_commits = [l.split()[0] for l in hooks_commits if l.split(' ',1)[1].startsw
 CLAIMED = {
  # id: (design section, technique, level text, level note)
  'C01': ('6/C01', 'seeded whole-system simulation: real day loop with sub-step probes, buggified sub-step counts, per-step water-balance invariant',
-         'Exploration: thousands of generated worlds (soil x weather x management x configuration) are run through the real session.Run; the balance identity is evaluated at every sub-step and day from probes, with the sub-step count perturbed by a cooperative fault point. Sampling, not proof.',
+         'Exploration: thousands of generated worlds (soil x weather x management x configuration) are run through the real session.Run; the balance identity is evaluated at every sub-step and day from probes, with the sub-step count perturbed by a cooperative fault point; the public counters (percolation, capillary supply, drain, the reported daily net bottom flux, the uptake credited as groundwater supply) must agree with the fluxes. Sampling, not proof.',
          'Trusts the verif probe hooks to expose the state unmodified, the generator to stay inside the property\'s quantifier (constant groundwater; measurement days excluded), IEEE double arithmetic; tolerance 1e-9 + 1e-12*sum|terms|.'),
 }
 NOT_YET = {}
